@@ -161,6 +161,9 @@ ABORT_SWEEP = [
      ["isr.mp.pp.s_root(2,ph,ph,ia,jb)", "isr.mp.pp.precursor(2,ph,ket,ia)"]),
     ("expr.factor_intermediates(t2_2_like,t2_1+t2_2)",
      ["expr.factor_intermediates(t2_2_like,t2_2)", "itmd.t2_2.expand_itmd(ijab,full)"]),
+    ("expr.factor_intermediates(t2_2_sym4,t2_2)",
+     ["expr.factor_intermediates(t2_2_shared,t2_2)",
+      "expr.factor_intermediates(t2_2_like,t2_2)"]),
     ("m.mp.ip.isr_matrix_block(1,h,h,i,j)", ["m.mp.ip.mvp_block_order(1,h,h,h,i)",
                                              "isr.mp.ip.overlap_isr(1,h,h,i,j)"]),
     ("prop.mp.pp.trans_moment(1)", ["prop.mp.pp.expectation_value(1,1)"]),
@@ -264,7 +267,7 @@ def run(tier, seed):
         return res
 
     # ---- family E: empty history, environment varied (strict literal equality)
-    n_env = 6 if thorough else 2
+    n_env = 6 if thorough else 3
     jobs = []
     for tid in tids:
         if tid in ENV_REGRESSION:
@@ -420,7 +423,7 @@ def run(tier, seed):
     # re-issued and followed by requests that share their cached ingredients
     try:
         jobs = abort_sweep_jobs(ref, pool[0], seed, points=120 if thorough else 10,
-                                targets=ABORT_SWEEP if thorough else ABORT_SWEEP[:4])
+                                targets=ABORT_SWEEP if thorough else ABORT_SWEEP[:5])
     except RuntimeError as exc:
         log(f"HARNESS-ERROR {exc}")
         return 2
